@@ -6,7 +6,14 @@
    The C15_gen_* obligations are decided by vm_compute on that generated list: a change of the
    source that e.g. opens the destination directly again, replaces it unconditionally, forgets to
    remove the temporary, or writes the terminating blank line before the child cards makes the
-   corresponding obligation fail to compile. *)
+   corresponding obligation fail to compile.
+
+   Status on the current source:
+     C15_guards, C15_atomic, C15_atomic_any_adversary, C15_success, C15_frame   full
+     "leaves no truncated or partial file" read as "no stray temporary either":
+        C15_no_leftover_refuted (a failing close leaves the partial temporary, for EVERY problem)
+        C15_no_leftover_partial (none as long as close / os.replace / os.remove themselves work)
+     proposed_fixes/C15-1 (try/finally in __exit__) turns the pair into one full theorem. *)
 From Coq Require Import List String Ascii Bool.
 From MPV Require Import Model.Wire Model.Write Proofs.WriteProofs Gen.Writer.
 Import ListNotations.
@@ -22,18 +29,13 @@ Theorem C15_gen_guards_first : guards_first write_steps = true.
 Proof. vm_compute. reflexivity. Qed.
 Print Assumptions C15_gen_guards_first.
 
-Theorem C15_gen_dest_only_written_by_replace : dest_only_written_by_replace write_steps = true.
-Proof. vm_compute. reflexivity. Qed.
-Print Assumptions C15_gen_dest_only_written_by_replace.
-
-Theorem C15_gen_replace_only_on_success : replace_only_on_success write_steps = true.
-Proof. vm_compute. reflexivity. Qed.
-Print Assumptions C15_gen_replace_only_on_success.
-
-Theorem C15_gen_nothing_fails_after_replace :
-  nothing_fails_after_replace write_steps = true /\ post_only_warnings write_steps = true.
+(* no step opens or removes the destination; os.replace only in __exit__ and only when nothing is
+   propagating; after the with block only the warning hand-over *)
+Theorem C15_gen_writes_go_to_temp_then_replace :
+  dest_only_written_by_replace write_steps = true /\ replace_only_on_success write_steps = true /\
+  post_only_warnings write_steps = true.
 Proof. vm_compute. auto. Qed.
-Print Assumptions C15_gen_nothing_fails_after_replace.
+Print Assumptions C15_gen_writes_go_to_temp_then_replace.
 
 Theorem C15_gen_opens_temp_after_guards : opens_temp_after_guards write_steps = true.
 Proof. vm_compute. reflexivity. Qed.
@@ -59,6 +61,12 @@ Print Assumptions C15_gen_temp_name_distinct.
 Theorem C15_gen_writer_ok : writer_ok write_steps = true.
 Proof. vm_compute. reflexivity. Qed.
 Print Assumptions C15_gen_writer_ok.
+
+(* the current __exit__ is the plain one: its clean-up is skipped when the close or the move raises
+   (this obligation fails to compile once proposed_fixes/C15-1 is applied: see notes/C15.md) *)
+Theorem C15_gen_cleanup_not_total : cleanup_total write_steps = false.
+Proof. vm_compute. reflexivity. Qed.
+Print Assumptions C15_gen_cleanup_not_total.
 
 (* ---------------------------------------------------------------- headline theorems *)
 Definition tmp (pid d : string) : path := tmp_of write_steps pid d.
@@ -90,7 +98,12 @@ Theorem C15_atomic : forall f pid d ov p k f' e,
   (f' d = f d \/ (k = FPost /\ f' d = File (spec_render p))) /\
   (exit_fault k = false -> f' (tmp pid d) = Absent) /\
   (forall q, q <> d -> q <> tmp pid d -> f' q = f q).
-Proof. exact (headline_atomic write_steps C15_gen_writer_ok). Qed.
+Proof.
+  intros f pid d ov p k f' e Hab H.
+  destruct (headline_atomic write_steps C15_gen_writer_ok f pid d ov p k f' e Hab H) as (H1 & H2 & H3).
+  repeat split; auto.
+  intros Hk. apply H2. exact (may_leave_plain write_steps k C15_gen_cleanup_not_total Hk).
+Qed.
 Print Assumptions C15_atomic.
 
 (* 2'. the same against an adversary that may fail any set of crash points at once *)
@@ -111,13 +124,37 @@ Theorem C15_success : forall f pid d ov p adv f',
 Proof. exact (headline_success write_steps C15_gen_writer_ok). Qed.
 Print Assumptions C15_success.
 
-(* 4. no stray temporary, whatever the outcome, as long as close / replace / remove work *)
-Theorem C15_temp_gone : forall f pid d ov p adv f' r,
+(* 4. "leaves no truncated or partial file" also forbids a stray partial temporary next to the
+      destination.  The current __exit__ does not give that:
+      4a (refuted, in the strongest form): for EVERY problem, every flag and every prior state the
+         guards let through, a failing close (buffered data cannot be flushed — the way a full disk
+         shows up for a small file) makes write_to_file raise OSError with the destination intact
+         and the partial temporary left behind *)
+Theorem C15_no_leftover_refuted : forall f pid d ov p adv,
+  f d <> Dir -> (forall c, f d = File c -> ov = true) -> f (tmp pid d) = Absent ->
+  a_open adv = false -> a_close adv = true ->
+  exists f' W, run_writer write_steps (mkenv d (tmp pid d) ov p adv) f = (f', Err OSError) /\
+               f' d = f d /\ f' (tmp pid d) = File W.
+Proof.
+  intros f pid d ov p adv Hd Hov Ht Hao Hac.
+  apply (close_failure_leaves_temp write_steps (mkenv d (tmp pid d) ov p adv) f
+           C15_gen_writer_ok C15_gen_cleanup_not_total (C15_temp_is_not_dest pid d)); simpl; auto.
+  rewrite Ht. discriminate.
+Qed.
+Print Assumptions C15_no_leftover_refuted.
+
+(*    4b (partial): no stray temporary, whatever the outcome, as long as close / replace / remove
+         themselves work — in particular for every failing format call and every failing write *)
+Theorem C15_no_leftover_partial : forall f pid d ov p adv f' r,
   f (tmp pid d) = Absent ->
   a_close adv = false -> a_replace adv = false -> a_remove adv = false ->
   run_writer write_steps (mkenv d (tmp pid d) ov p adv) f = (f', r) -> f' (tmp pid d) = Absent.
-Proof. exact (headline_temp_gone write_steps C15_gen_writer_ok). Qed.
-Print Assumptions C15_temp_gone.
+Proof.
+  intros f pid d ov p adv f' r Hab Hc Hr Hm H.
+  apply (headline_temp_gone write_steps C15_gen_writer_ok f pid d ov p adv f' r Hab); auto.
+  unfold may_leave_temp. rewrite C15_gen_cleanup_not_total, Hc, Hr, Hm. reflexivity.
+Qed.
+Print Assumptions C15_no_leftover_partial.
 
 (* 5. nothing but the destination and the temporary is ever touched (no condition at all) *)
 Theorem C15_frame : forall f pid d ov p adv f' r q,
@@ -172,17 +209,12 @@ Example C15_guards_nonvacuous :
 Proof. vm_compute. repeat split; reflexivity. Qed.
 Print Assumptions C15_guards_nonvacuous.
 
-(* the side condition of C15_temp_gone is needed: when the close itself fails (buffered data
-   cannot be flushed), __exit__ raises before it reaches the remove: the destination is intact but
-   the partial temporary stays behind (reported in notes/C15.md; the destination-level statement of
-   C15 is not affected) *)
-Theorem C15_temp_left_when_close_fails :
-  exists f f', write_with_failure_at FClose write_steps "out.i" (tmp "42" "out.i") true ex_problem f
-               = (f', Err OSError)
-            /\ f (tmp "42" "out.i") = Absent /\ f' "out.i" = f "out.i" /\ f' (tmp "42" "out.i") <> Absent.
-Proof.
-  exists ex_fs.
-  exists (fst (write_with_failure_at FClose write_steps "out.i" (tmp "42" "out.i") true ex_problem ex_fs)).
-  vm_compute. repeat split; try reflexivity. discriminate.
-Qed.
-Print Assumptions C15_temp_left_when_close_fails.
+(* C15_no_leftover_refuted on a concrete run (the committed finding F-C15-temp-left-when-exit-fails
+   replays this on the real code): overwrite of "OLD" with the close failing *)
+Example C15_no_leftover_refuted_witness :
+  obs (write_with_failure_at FClose write_steps "out.i" (tmp "42" "out.i") true ex_problem ex_fs)
+    = (Err OSError, File "OLD", File (spec_render ex_problem), File "keep") /\
+  obs (write_with_failure_at FReplace write_steps "out.i" (tmp "42" "out.i") true ex_problem ex_fs)
+    = (Err OSError, File "OLD", File (spec_render ex_problem), File "keep").
+Proof. vm_compute. repeat split; reflexivity. Qed.
+Print Assumptions C15_no_leftover_refuted_witness.
